@@ -31,7 +31,7 @@ func init() {
 	register(&c07{base{
 		id:          "C07",
 		level:       lvlExploration,
-		rule:        "exhaustive mode: for every (coder, data shards d=1..6, parity shards p=1..4) ALL 2^d missing-data x 2^p missing-parity subsets x shard lengths x goroutine counts are reconstructed from random shard contents; random mode: seeded larger codes and erasure patterns; singular mode: analytically constructed singular PAR2-Vandermonde sub-systems and their non-singular neighbours; limits: documented size limits. Oracle: success is demanded iff |missing| <= |available parity| and (Vandermonde) the forced sub-matrix (lowest available parity rows x missing columns) is non-singular by the reference elimination. A key is (coder,d,p,missing set,available-parity set,len,g); trivial = nothing missing. Shard length 0 is part of the grids. After every call that returned an error the call is repeated on the very same slices: a nil answer then still obliges to the originals. Constructed singular systems are also run with a spare parity shard after the dependent pair (still an error).. Every third trial hands over a parity slice shorter than the coder's parity count (prefix of a longer array). GOARCH=386 build of the worker: the documented limits (also 4 x 65535 and 7 x 40000 Vandermonde codes), two exhaustive grids and large random codes.",
+		rule:        "exhaustive mode: for every (coder, data shards d=1..6, parity shards p=1..4) ALL 2^d missing-data x 2^p missing-parity subsets x shard lengths x goroutine counts are reconstructed from random shard contents; random mode: seeded larger codes and erasure patterns; singular mode: analytically constructed singular PAR2-Vandermonde sub-systems and their non-singular neighbours; limits: documented size limits. Oracle: success is demanded iff |missing| <= |available parity| and (Vandermonde) the forced sub-matrix (lowest available parity rows x missing columns) is non-singular by the reference elimination. A key is (coder,d,p,missing set,available-parity set,len,g); trivial = nothing missing. Shard length 0 is part of the grids. After every call that returned an error the call is repeated on the very same slices: a nil answer then still obliges to the originals. Constructed singular systems are also run with a spare parity shard after the dependent pair (still an error).. Every third trial hands over a parity slice shorter than the coder's parity count (prefix of a longer array). GOARCH=386 build of the worker: the documented limits (also 4 x 65535 and 7 x 40000 Vandermonde codes), two exhaustive grids and large random codes. Mode concurrent-shapes: eight goroutines build and use coders of 108 shapes at the same time (640 000 uses per quick run), parity compared with precomputed definitions.",
 		assumptions: append([]string{"PAR2 constants 2^n with n not divisible by 3,5,17,257 and the Cauchy definition 1/((d+i) xor j) are taken from the specification / the documented construction, recomputed in internal/ref/gf16"}, commonAssumptions...),
 		opts:        core.WorkerOpts{CrashIsViolation: true, WallSeconds: 1800, Exhaustive: true, Extra: map[string]interface{}{"exhaustive_subspace": "data shards 1..6 x parity shards 1..4 (thorough: 1..8 x 1..5): all erasure subsets of data and parity, both coders, listed shard lengths and goroutine counts"}},
 	}})
